@@ -7,6 +7,7 @@ one verdict line per input line: `ok`, `DIFF …` (model ≠ implementation),
 import SamVerif.Drive.C12
 import SamVerif.Drive.C10
 import SamVerif.Drive.C18
+import SamVerif.Drive.C17
 open SamVerif.Drive
 
 def dispatch (line : String) : String :=
@@ -16,6 +17,7 @@ def dispatch (line : String) : String :=
   | k :: args =>
     if k.startsWith "c10." then C10.handle k args impl
     else if k.startsWith "c18." then C18.handle k args impl
+    else if k.startsWith "c17." then C17.handle k args impl
     else "bad-op"
   | _ => "bad-op"
 
